@@ -765,6 +765,9 @@ impl Engine for Da {
                         txs.push(None);
                         continue;
                     }
+                    if !item.data_variant.is_empty() {
+                        ctx.stats.inc("probe.message_data_variant_with_empty_data");
+                    }
                     if item.precompute {
                         match t.precompute(&chain_id) {
                             Ok(()) => ctx.stats.inc("probe.cached_metadata"),
@@ -827,7 +830,7 @@ impl Engine for Da {
                 match fault.map(|f| &f.kind) {
                     Some(FaultKind::Cancel { polls }) => {
                         let mut fut = Box::pin(fut);
-                        let (r, _) = poll_n(fut.as_mut(), (*polls).min(1 << 16) as usize);
+                        let (r, _) = poll_n(fut.as_mut(), (*polls).clamp(1, 1 << 16) as usize);
                         drop(fut); // cancellation: the half-finished future is dropped here
                         r
                     }
